@@ -307,6 +307,7 @@ def unconditional_local_callees(P, fn):
     """bodies of workspace functions that `fn` calls on every success path with a checked result (helper functions)"""
     body = P.body(fn)
     out = []
+    later = []
     errs = set(body.err_blocks)
     by = collections.defaultdict(list)
     for bi, t in body.calls():
@@ -328,7 +329,11 @@ def unconditional_local_callees(P, fn):
         reach = body.reach([0], barriers | errs)
         if not any(body.term(x)['k'] == 'return' for x in reach):
             out.append(P.fns[k])
-    return out
+        elif module_private(P.fns[k]):
+            later.append(P.fns[k])
+    # module-private helpers whose result is checked wherever they are called (a block moved out of a loop or a branch into a
+    # helper of its own): the guard still runs exactly where it ran before
+    return out + later
 
 
 # ------------------------------------------------------------------------------ ORDER
@@ -405,6 +410,15 @@ def wire(P, fn_qual, call_rx, arg, origin_rx, which='all', min_sites=1):
     orx = re.compile(origin_rx)
     r = Res()
     sites = body.calls(lambda t: call_matches(t, rx))
+    if not sites and fn['kind'] != 'Closure':
+        # the call may sit in a closure of F (a loop body rewritten as `iter().try_for_each(|x| ..)`): captured variables print
+        # under their names, so the same origin pattern applies
+        for k in P.closures_of(fn['key']):
+            if P.body(P.fns[k]).calls(lambda t: call_matches(t, rx)):
+                try:
+                    return wire(P, k, call_rx, arg, origin_rx, which, min_sites)
+                except AnchorMissing:
+                    continue
     if len(sites) < min_sites:
         raise AnchorMissing('`%s` has %d call(s) matching %s (need %d)' % (fn_qual, len(sites), call_rx, min_sites))
     nok = 0
